@@ -2067,8 +2067,18 @@ def _test_flag(node, v, fn_node):
     if _isfloat_test(node, v):
         return 1
     names = {n.id for n in ast.walk(node) if isinstance(n, ast.Name) and isinstance(n.ctx, ast.Load)} - {v}
-    for st in ast.walk(fn_node):
-        if isinstance(st, (ast.Assign, ast.AugAssign, ast.AnnAssign)) and st.value is not None and _targets(st) & names:
+    assigns = [st for st in ast.walk(fn_node) if isinstance(st, (ast.Assign, ast.AugAssign, ast.AnnAssign)) and st.value is not None]
+    grew = True
+    while grew:   # the names the condition depends on, through assignments (flow-insensitive)
+        grew = False
+        for st in assigns:
+            if _targets(st) & names:
+                new = (_reads(st.value) - {v}) - names
+                if new:
+                    names |= new
+                    grew = True
+    for st in assigns:
+        if _targets(st) & names:
             for sub in ast.walk(st.value):
                 is_test = isinstance(sub, ast.Compare) or (isinstance(sub, ast.UnaryOp) and isinstance(sub.op, ast.Not)) or \
                     (isinstance(sub, ast.Call) and isinstance(sub.func, ast.Name) and sub.func.id == "isinstance")
@@ -2732,6 +2742,8 @@ def mini_stream(ctx, progs, with_model=True):
                     break
                 if ok is False:
                     cls = "literalEqMerge" if "literalEqMerge" in flags else ("C03:noneAssign" if "noneReject" in flags else None)
+                    if out is None and cross_type_equal(v, ts):
+                        cls = "literalEqMerge"   # driver unavailable: the Python reading of the class
                     ctx.candidate({"src": case["src"], "args": case["args"], "node": k, "prog": p, "objs": objs},
                                   "node %s evaluated to %r, which is not in the inferred %s" % (k, v, " / ".join(xshow(t) for t in ts)),
                                   cls=cls, conforms=conforms, stream="mini")
